@@ -79,7 +79,9 @@ Step(e) ==
       [] e.ev = "play" -> /\ IF e.was_stopped /\ autoStopped THEN Fresh /\ autoStopped' = FALSE
                              ELSE UNCHANGED <<ob, armed, junk, autoStopped>>
                           /\ UNCHANGED <<tape, cursor, bad>>
-      [] e.ev = "stop" -> UNCHANGED <<tape, ob, armed, junk, autoStopped, cursor, bad>>
+      \* STOP stops the deck whatever went before (the player drivers report the deck state right after the command)
+      [] e.ev = "stop" -> /\ IF "stopped" \in DOMAIN e /\ ~e.stopped THEN Report("stopignored", [line |-> l]) ELSE bad' = bad
+                          /\ UNCHANGED <<tape, ob, armed, junk, autoStopped, cursor>>
       \* the fast loader took the next block of a tape that stands at a block boundary with the deck stopped (fresh, or
       \* with earlier blocks taken the same way): the listener who presses PLAY next hears the tape from the block behind it
       [] e.ev = "fastblock" ->
